@@ -114,6 +114,7 @@ ALPHABET = {
     'ip6': set('0123456789abcdef:.'),
     'hex': set('0123456789abcdef'),
     'mac': set('0123456789ABCDEF-'),
+    'hexbyte': set('0123456789ABCDEF'),
 }
 
 
@@ -145,6 +146,10 @@ def split(s, sep, maxsplit=-1):
     """s.split(sep): only when every occurrence of sep is decidable structurally"""
     if isinstance(s, str):
         return s.split(sep, maxsplit)
+    a0 = s.single_atom()
+    if a0 is not None and a0.kind == 'mac' and sep == '-' and maxsplit < 0:
+        # 'AA-BB-CC-DD-EE-FF': six two-digit upper-case hex groups
+        return [SStr([Atom('hexbyte', z3.simplify((a0.t / (256 ** (5 - k))) % 256))]) for k in range(6)]
     if len(sep) != 1:
         raise Unsupported('split on multi-character separator of structured string')
     for p in s.parts:
@@ -177,6 +182,8 @@ def to_int(it, s, base=10):
         return None
     a = s.single_atom()
     if a is not None and a.kind == 'dec' and base == 10:
+        return mk_num(a.t)
+    if a is not None and a.kind == 'hexbyte' and base == 16:
         return mk_num(a.t)
     if a is not None and a.kind == 'hex' and base == 16:
         sb = a.t
